@@ -258,25 +258,77 @@ Module ShadowExamples.
   Qed.
 End ShadowExamples.
 
-(** * Found in round 4 on the unchanged code (reported, not repaired here)
+(** * A canonical name that the table covers without a value (fix 2e58a5d)
 
-    "A name matched by the table but without a value for the requested type
-    gets an empty successful answer, not the upstream's" holds for the
-    queried name ([matched_without_value], [matched_nothing_speaks]) but NOT
-    for a name reached through a canonical-name entry: filterDNSRequest
-    sees (CanonName, no addresses) and cannot tell "the canonical name is
-    outside the table" from "the table covers it without a value of this
-    type", so it resolves the canonical name upstream.  The witness is the
-    document's own "Example: CNAME+A records" (AGHTechDoc: "AAAA: CNAME =
-    host.com" and nothing else) with an upstream that has an AAAA record
-    for host.com. *)
+    Found in round 4: "a name matched by the table but without a value for
+    the requested type gets an empty successful answer, not the upstream's"
+    held for the queried name but not for a name reached through a
+    canonical-name entry: filterDNSRequest saw (CanonName, no addresses) and
+    could not tell "outside the table" from "in the table without a value
+    of this type", so it resolved the canonical name upstream.  Repaired in
+    /repo by 2e58a5d (Result.CanonNameRewritten); the model follows
+    ([covered_flag], [via_upstream]).  The pre-fix response assembly is kept
+    below as [respond_pre] with its refutation: it is what a revert does. *)
+Section CoveredCanon.
+  Variable sort : list entry -> list entry.
+  Hypothesis sort_perm : forall l, Permutation (sort l) l.
+
+  (** The canonical name is covered by the table, by no canonical-name
+      entry, and the chase found no address for it: the client gets the
+      CNAME alone, NOERROR, and the upstream is not asked. *)
+  Theorem cname_to_covered_name (upstream : bytes -> N -> N * list rr) en tbl qname qt r :
+    check_host sort en tbl qname qt = Some r ->
+    r_reason r = Rewritten -> r_canon r <> [] -> r_ips r = [] ->
+    (exists e, In e tbl /\ matches_host e (r_canon r) = true) ->
+    (forall e, In e tbl -> matches_host e (r_canon r) = true -> is_cname e = false) ->
+    respond sort upstream en tbl qname qt =
+      Some {| rp_qname := qname; rp_rcode := 0;
+              rp_answer := [RR_CNAME qname (r_canon r)]; rp_upstream := [] |}.
+  Proof.
+    intros C R N I M NoC. apply respond_cname_covered with (r := r); auto.
+    eapply covered_flag_true; eauto.
+  Qed.
+
+  (** The same with an upstream that may fail, and with the cache on (the
+      cache is neither read nor written). *)
+  Theorem cname_to_covered_name_e (upstream : bytes -> N -> option (N * list rr)) en tbl qname qt r :
+    check_host sort en tbl qname qt = Some r ->
+    r_reason r = Rewritten -> r_canon r <> [] -> r_ips r = [] ->
+    (exists e, In e tbl /\ matches_host e (r_canon r) = true) ->
+    (forall e, In e tbl -> matches_host e (r_canon r) = true -> is_cname e = false) ->
+    respond_e sort upstream en tbl qname qt =
+      Some (false, {| rp_qname := qname; rp_rcode := 0;
+                      rp_answer := [RR_CNAME qname (r_canon r)]; rp_upstream := [] |}).
+  Proof.
+    intros C R N I M NoC. unfold respond_e, via_upstream, local_response.
+    rewrite C, R, I, (covered_flag_true sort sort_perm _ _ _ _ _ C R N M NoC).
+    destruct (r_canon r); [congruence|]. cbn.
+    destruct (qt =? qA); [reflexivity|]. destruct (qt =? qAAAA); reflexivity.
+  Qed.
+
+  (** A canonical name OUTSIDE the table is resolved upstream, as before. *)
+  Theorem cname_outside_table_via_upstream (upstream : bytes -> N -> N * list rr) en tbl qname qt r :
+    check_host sort en tbl qname qt = Some r ->
+    r_reason r = Rewritten -> r_canon r <> [] -> r_ips r = [] ->
+    (forall e, In e tbl -> matches_host e (r_canon r) = false) ->
+    respond sort upstream en tbl qname qt =
+      Some {| rp_qname := qname; rp_rcode := fst (upstream (r_canon r) qt);
+              rp_answer := RR_CNAME qname (r_canon r) :: snd (upstream (r_canon r) qt);
+              rp_upstream := [(r_canon r, qt)] |}.
+  Proof.
+    intros C R N I Out. apply respond_cname_via_upstream; auto.
+    eapply covered_flag_outside; eauto.
+  Qed.
+End CoveredCanon.
+
 Module CoveredTarget.
   Import DocExamples.
   Local Open Scope string_scope.
 
   Definition up6 (name : bytes) (qt : N) : N * list rr :=
-    if N.eqb qt qAAAA then (0%N, [RR_AAAA name 9%N]) else (0%N, []).
+    if N.eqb qt qAAAA then (0%N, [RR_AAAA name 9%N]) else (0%N, [RR_A name 151587081%N]).
 
+  (** AGHTechDoc "Example: CNAME+A records", AAAA: "CNAME = host.com". *)
   Example covered_target_asked_directly :
     respond isort up6 true t4 (bs "host.com") qAAAA =
       Some {| rp_qname := bs "host.com"; rp_rcode := 0%N; rp_answer := []; rp_upstream := [] |}.
@@ -285,28 +337,97 @@ Module CoveredTarget.
   Example covered_target_through_cname :
     respond isort up6 true t4 (bs "sub.host.com") qAAAA =
       Some {| rp_qname := bs "sub.host.com"; rp_rcode := 0%N;
+              rp_answer := [RR_CNAME (bs "sub.host.com") (bs "host.com")];
+              rp_upstream := [] |}.
+  Proof. vm_compute. reflexivity. Qed.
+
+  (** "pass AAAA only" reached through a canonical name (the C06-H table). *)
+  Example pass_aaaa_only_through_cname :
+    respond isort up6 true (ent "alias.example" "sub.host4.example" None :: ShadowExamples.tblH)
+            (bs "alias.example") qA =
+      Some {| rp_qname := bs "alias.example"; rp_rcode := 0%N;
+              rp_answer := [RR_CNAME (bs "alias.example") (bs "sub.host4.example")];
+              rp_upstream := [] |}.
+  Proof. vm_compute. reflexivity. Qed.
+
+  (** The premises of [cname_to_covered_name] hold there. *)
+  Example covered_premises :
+    exists r, check_host isort true t4 (bs "sub.host.com") qAAAA = Some r /\
+      r_reason r = Rewritten /\ r_canon r <> [] /\ r_ips r = [] /\
+      (exists e, In e t4 /\ matches_host e (r_canon r) = true) /\
+      (forall e, In e t4 -> matches_host e (r_canon r) = true -> is_cname e = false).
+  Proof.
+    eexists. split; [vm_compute; reflexivity|]. cbn [r_reason r_canon r_ips].
+    repeat split; try discriminate.
+    - exists (ent "host.com" "1.2.3.4" (v4 16909060)). split; [cbn; auto | vm_compute; reflexivity].
+    - intros e [<-|[<-|[]]]; vm_compute; congruence.
+  Qed.
+
+  (** The "*.example.com -> sub.example.com" case (#4016) stays as the code
+      has it: the canonical name is covered by that very canonical-name
+      entry, the flag is not set, the name is resolved upstream. *)
+  Example issue_4016_still_upstream :
+    respond isort up6 true [ent "*.issue4016.com" "sub.issue4016.com" None] (bs "www.issue4016.com") qA =
+      Some {| rp_qname := bs "www.issue4016.com"; rp_rcode := 0%N;
+              rp_answer := [RR_CNAME (bs "www.issue4016.com") (bs "sub.issue4016.com");
+                            RR_A (bs "sub.issue4016.com") 151587081%N];
+              rp_upstream := [(bs "sub.issue4016.com", qA)] |}.
+  Proof. vm_compute. reflexivity. Qed.
+
+  (** A cycle: the chase stops at a name that a canonical-name entry covers;
+      not "covered without a value", resolved upstream as before. *)
+  Example cycle_still_upstream :
+    respond isort up6 true [ent "a.test" "x.test" None; ent "x.test" "y.x.test" None; ent "y.x.test" "x.test" None]
+            (bs "a.test") qA =
+      Some {| rp_qname := bs "a.test"; rp_rcode := 0%N;
+              rp_answer := [RR_CNAME (bs "a.test") (bs "y.x.test"); RR_A (bs "y.x.test") 151587081%N];
+              rp_upstream := [(bs "y.x.test", qA)] |}.
+  Proof. vm_compute. reflexivity. Qed.
+
+  (** ** The response assembly before 2e58a5d (what a revert restores) *)
+  Definition respond_pre (upstream : bytes -> N -> N * list rr) (enabled : bool) (tbl : list entry)
+      (qname : bytes) (qt : N) : option response :=
+    match check_host isort enabled tbl qname qt with
+    | None => None
+    | Some r =>
+        match r_reason r with
+        | NotFound =>
+            let '(rc, ans) := upstream qname qt in
+            Some {| rp_qname := qname; rp_rcode := rc; rp_answer := ans; rp_upstream := [(qname, qt)] |}
+        | Rewritten =>
+            if negb (is_nil (r_canon r)) && is_nil (r_ips r) then
+              let '(rc, ans) := upstream (r_canon r) qt in
+              Some {| rp_qname := qname; rp_rcode := rc;
+                      rp_answer := RR_CNAME qname (r_canon r) :: ans;
+                      rp_upstream := [(r_canon r, qt)] |}
+            else Some (local_response r qname qt)
+        end
+    end.
+
+  (** The statement the repaired code satisfies ([cname_to_covered_name]),
+      read for [respond_pre], and its refutation by the document's own
+      example with an upstream that has an AAAA record for host.com. *)
+  Definition covered_target_statement_pre : Prop :=
+    forall (upstream : bytes -> N -> N * list rr) tbl qname qt r,
+      check_host isort true tbl qname qt = Some r ->
+      r_reason r = Rewritten -> r_canon r <> [] -> r_ips r = [] ->
+      (exists e, In e tbl /\ matches_host e (r_canon r) = true) ->
+      (forall e, In e tbl -> matches_host e (r_canon r) = true -> is_cname e = false) ->
+      respond_pre upstream true tbl qname qt =
+        Some {| rp_qname := qname; rp_rcode := 0%N;
+                rp_answer := [RR_CNAME qname (r_canon r)]; rp_upstream := [] |}.
+
+  Example pre_fix_through_cname :
+    respond_pre up6 true t4 (bs "sub.host.com") qAAAA =
+      Some {| rp_qname := bs "sub.host.com"; rp_rcode := 0%N;
               rp_answer := [RR_CNAME (bs "sub.host.com") (bs "host.com"); RR_AAAA (bs "host.com") 9%N];
               rp_upstream := [(bs "host.com", qAAAA)] |}.
   Proof. vm_compute. reflexivity. Qed.
 
-  (** The clause as it would read for the finally resolved name, and its
-      refutation by the faithful model. *)
-  Definition covered_target_statement : Prop :=
-    forall (upstream : bytes -> N -> N * list rr) tbl qname qt r p,
-      check_host isort true tbl qname qt = Some r -> r_reason r = Rewritten ->
-      r_canon r <> [] -> r_ips r = [] ->
-      (* asked directly, the canonical name gets the empty rewritten answer *)
-      process_rewrites isort tbl (r_canon r) qt = Some rewritten_empty ->
-      respond isort upstream true tbl qname qt = Some p ->
-      rp_upstream p = [] /\ rp_answer p = [RR_CNAME qname (r_canon r)].
-
-  Theorem covered_target_refuted : ~ covered_target_statement.
+  Theorem covered_target_pre_refuted : ~ covered_target_statement_pre.
   Proof.
-    intros H.
-    destruct (H up6 t4 (bs "sub.host.com") qAAAA
-                {| r_reason := Rewritten; r_canon := bs "host.com"; r_ips := [] |} _
-                ltac:(vm_compute; reflexivity) eq_refl ltac:(discriminate) eq_refl
-                ltac:(vm_compute; reflexivity) covered_target_through_cname) as [U _].
-    discriminate U.
+    intros H. destruct covered_premises as (r & C & R & N & I & M & NoC).
+    specialize (H up6 t4 (bs "sub.host.com") qAAAA r C R N I M NoC).
+    rewrite pre_fix_through_cname in H. discriminate H.
   Qed.
 End CoveredTarget.
